@@ -196,7 +196,8 @@ def run_plot(ctx):
         with core.quiet(), gcommon.Scratch() as d:
             if kind in ('wg', 'nasu'):
                 cls = Waveguide if kind == 'wg' else NasuWaveguide
-                kw = {} if kind == 'wg' else {'adj_scan': 1}
+                # adjacent passes are drawn where they are written: transform(base + k * shift), shift mirrored / rotated / z-scaled too
+                kw = {} if kind == 'wg' else {'adj_scan': rng.choice([1, 3, 4]), 'adj_scan_shift': rng.choice([(0, 0.0004, 0), (0.002, 0.004, 0.003)])}
                 wg = cls(speed=20, samplesize=(6, 3), **kw)
                 wg.start([rng.choice([-2.0, 0.0]), rng.choice([0.0, 0.5]), 0.035]).linear([2, 0, 0]).arc_bend(rng.choice([0.04, -0.04])).linear([1, 0, 0])
                 wg.end()
@@ -204,7 +205,11 @@ def run_plot(ctx):
                 wr = (WaveguideWriter if kind == 'wg' else NasuWriter)([wg], **cfg)
                 fig = wr._plot2d_wg(go.Figure(), show_shutter_close=False) if kind == 'wg' else wr._plot2d_nwg(go.Figure(), show_shutter_close=False)
                 sel = pts[:, pts[4] != 0]
-                src = [[float(a), float(b), float(c)] for a, b, c in zip(sel[0], sel[1], sel[2])]
+                if kind == 'wg':
+                    src = [[float(a), float(b), float(c)] for a, b, c in zip(sel[0], sel[1], sel[2])]
+                else:
+                    dx, dy, dz = (float(v) for v in wg.adj_scan_shift)
+                    src = [[float(a) + k * dx, float(b) + k * dy, float(c) + k * dz] for k in wg.adj_scan_order for a, b, c in zip(sel[0], sel[1], sel[2])]
                 got = [(float(x), float(y), None) for tr in fig.data for x, y in zip(tr.x, tr.y)]
             elif kind == 'mk':
                 mk = Marker(lx=1.0, ly=0.5)
